@@ -32,7 +32,7 @@ def main():
     R.extra["programs"] = R.counters.get("programs_validated", 0)
     R.extra["disagreements_checked"] = R.counters.get("comparisons", 0)
     R.assumptions = ["decoders in vf/decode/snarkjs.py follow the iden3 r1cs v1 / wtns v2 layout; nLabels=0 and nPrvIn=0 in the header are not counts of file content (DESIGN.md 6.6)"]
-    return R.finish(require_counters=("programs_validated", "comparisons", "decoded_constraints", "scripts_validated", "hostile_values_seen", "second_prove_validated"))
+    return R.finish(require_counters=("programs_validated", "comparisons", "decoded_constraints", "scripts_validated", "hostile_values_seen", "second_prove_validated", "runs_in_a_reused_directory"))
 
 
 def validate(R, snap, cwd, det, klass):
@@ -115,9 +115,14 @@ def worker(job):
     rnd = random.Random(job["seed"])
     p = rt.backend.get_modulus()
     home = os.getcwd()
+    reuse = tempfile.mkdtemp(prefix="c10same-", dir=home)     # a directory in which runs follow each other (files are overwritten)
     for n in range(job["n"]):
         hostile = rnd.random() < 0.5
-        if hostile:
+        if n == 1:
+            # one large circuit per worker (block / buffer boundaries of the writers)
+            src, inputs = "x = PrivVal(I[0])\ny = PubVal(I[1])\nfor k in range(%d):\n    y = y * x + k\nz = y.val()\n" % rnd.randint(4200, 9000), [3, -2]
+            bl, res, klass = 16, 8, "large"
+        elif hostile:
             src, inputs = realrun.hostile_program(rnd, p)
             bl, res = 16, 8
             klass = "hostile"
@@ -152,16 +157,20 @@ def worker(job):
             classes.add("no-constraints")
         if classes & {"neg", ">=p", ">256bit"}:
             R.count("hostile_values_seen")
-        wd = tempfile.mkdtemp(prefix="c10-", dir=home)
+        same_dir = n % 3 == 0
+        wd = reuse if same_dir else tempfile.mkdtemp(prefix="c10-", dir=home)
         try:
             os.chdir(wd)
             rt.backend.prove()
             os.chdir(home)
-            det = dict(src=src, inputs=inputs, bl=bl, res=res, classes=sorted(classes))
+            det = dict(src=src if klass != "large" else src[:200], inputs=inputs, bl=bl, res=res, classes=sorted(classes), directory_reused=same_dir)
             nprob = validate(R, snap, wd, det, klass)
+            if same_dir:
+                R.count("runs_in_a_reused_directory")
         finally:
             os.chdir(home)
-            shutil.rmtree(wd, ignore_errors=True)
+            if not same_dir:
+                shutil.rmtree(wd, ignore_errors=True)
         if n % 4 == 0:
             # proving is not a one-shot: trace some more in the same process and prove again
             from pysnark.runtime import PrivVal, PubVal
@@ -181,8 +190,9 @@ def worker(job):
                 shutil.rmtree(wd, ignore_errors=True)
         R.count("programs_validated")
         R.case(cell="%s|%s" % (klass, "+".join(sorted(classes)) or "plain"), key=(src, tuple(inputs)))
-        R.sample(dict(src=src, inputs=inputs, classes=sorted(classes), constraints=len(snap["constraints"]),
+        R.sample(dict(src=src[:400], inputs=inputs, classes=sorted(classes), constraints=len(snap["constraints"]),
                       wires=1 + len(vals)), cap=4)
+    shutil.rmtree(reuse, ignore_errors=True)
     # a slice as real scripts: the at-exit path writes the files; the script dumps its in-memory trace just before exit
     for k in range(job["scripts"]):
         src, inputs = realrun.hostile_program(rnd, p)
